@@ -18,6 +18,8 @@ for r in rec["ran"]:
             failed = set(re.findall(r"--test (\w+)`", r.get("tail", "")))
             if failed and failed <= {"surface_compile_fail", "compile_fail"}:
                 r["note"] = "only the trybuild snapshot target failed, as it does on the unmodified tree (not counted)"
+            elif "no test target named `seed_" in r.get("tail", "") or "no test target named" in r.get("tail", ""):
+                r["note"] = "command names test targets that belong to other seeded changes of the same author (not run)"
             elif not r.get("cmd", "").strip() or "unexpected argument" in r.get("tail", ""):
                 r["note"] = "command could not be parsed from the author's free-form description (not run)"
             else:
